@@ -31,6 +31,7 @@ import (
 	"github.com/uhppoted/uhppote-core/types"
 	"github.com/uhppoted/uhppote-core/uhppote"
 	"verif/drv"
+	"verif/ops"
 	"verif/spec"
 	"verif/vk"
 )
@@ -436,6 +437,43 @@ func runDatesHeldElsewhere(r *vk.Run) {
 						}
 					}
 				}
+			}
+		}
+	}
+	// dates that carry a time of day (a types.Date converted from any time.Time), around removed local
+	// midnights of the Location they are held in: against ToDate of the day before, the same day and the
+	// day after, and against each other when they show the same or adjacent days - by (y, m, d) alone
+	time.Local = saved
+	tod := ops.DatesWithTimeOfDay()
+	civil := func(t time.Time) ymd { return ymd{t.Year(), int(t.Month()), t.Day()} }
+	cmpTod := func(da, db types.Date, a, b ymd, desc string) {
+		n++
+		var o obs
+		c := datePair{a, b}
+		if p, msg, frame := vk.Guard(func() { o = observe(da, db) }); p {
+			r.Violation("C16/panic/"+frame, fmt.Sprintf("comparing %s panicked: %s", desc, msg), "date-pair", c)
+			return
+		}
+		want, ok := refDate(r, a, b)
+		if ok && !sound(o, want) {
+			report(r, "Date(with-time-of-day)", o, want, "date-pair", c, desc)
+		}
+	}
+	for i, t := range tod {
+		a := civil(t)
+		for k := -1; k <= 1; k++ {
+			u := time.Date(a.Y, time.Month(a.M), a.D+k, 12, 0, 0, 0, time.UTC)
+			b := civil(u)
+			db, ok := mk(b)
+			if !ok {
+				continue
+			}
+			cmpTod(types.Date(t), db, a, b, fmt.Sprintf("a=Date(%s) b=ToDate(%v)", t.Format(time.RFC3339Nano), b))
+			cmpTod(db, types.Date(t), b, a, fmt.Sprintf("a=ToDate(%v) b=Date(%s)", b, t.Format(time.RFC3339Nano)))
+		}
+		for j := i - 12; j <= i+12; j++ {
+			if j >= 0 && j < len(tod) {
+				cmpTod(types.Date(t), types.Date(tod[j]), a, civil(tod[j]), fmt.Sprintf("a=Date(%s) b=Date(%s)", t.Format(time.RFC3339Nano), tod[j].Format(time.RFC3339Nano)))
 			}
 		}
 	}
